@@ -31,11 +31,12 @@ ACTIONS = ["AGrow", "AStart", "ABegin", "ABegin2", "AEnter", "ACharText", "AExit
 TEXTK = '{"page", "textboxh", "textboxv", "textline", "char", "anno", "layout", "textgroup", "boxref"}'
 FIGK = '{"page", "figure", "image", "char", "line", "rect", "curve", "textboxh", "textline"}'
 STRK = '{"page", "figure", "image", "char"}'
-SINKK = '{"page", "figure", "char"}'
+SINKK = '{"page", "char"}'
 # (label, Kinds, MaxNodes, Strings); the "sinks" config carries the shifting / escaping codecs as well
 CONFIGS = {
+    # (the figure family up to 4 nodes is contained in shapes-all; it is its own config from 5 nodes on, thorough tier)
     "quick": [("shapes-all", "AllKinds", 4, "Palette2"), ("shapes-text", TEXTK, 6, "Palette1"),
-              ("shapes-figure", FIGK, 4, "Palette1"), ("strings", STRK, 3, "Str2"), ("sinks", SINKK, 3, "StrSinks2")],
+              ("strings", STRK, 3, "Str2"), ("sinks", SINKK, 3, "StrSinks2")],
     "thorough": [("shapes-all", "AllKinds", 5, "Palette2"), ("shapes-text", TEXTK, 7, "Palette1"),
                  ("shapes-figure", FIGK, 5, "Palette2"), ("strings", STRK, 3, "Str3"), ("shapes-all6", "AllKinds", 6, "Palette1"),
                  ("sinks", STRK, 3, "StrSinks3")],
@@ -267,7 +268,7 @@ def direction_a_model(ck, dev, judge):
     for (label, kinds, maxn, strings) in CONFIGS[ck.tier]:
         # the as-coded design is explored where the deviations can show (names of figures, every string, every sink);
         # elsewhere as-coded outputs come from the transcription, which these runs validate
-        both = label in ("strings", "shapes-figure")
+        both = label in ("strings", "shapes-figure", "shapes-all")
         devs = "{{}" + ((", " + tla_set(dev)) if (dev and both) else "") + "}"
         mod = "Run_" + label.replace("-", "_")
         wrapper = os.path.join(ck.tmp, mod + ".tla")
@@ -647,7 +648,7 @@ def validate_traces(ck, traces, dev, label="recorded converter runs"):
                     invariants=["StackIsPath", "CursorInRange"], deadlock=True)
     rejected = 0
     # one batch is one TLC behaviour (about 2 steps per node); TLC cannot handle behaviours of 65,536 or more states
-    queue = batches(list(traces), lambda tr: 2 * len(tr["T"]) + 4, limit=40000)
+    queue = batches(list(traces), lambda tr: 2 * len(tr["T"]) + 4, limit=60000)
     while queue:
         todo = queue.pop(0)
         with open(tf, "w") as f:
@@ -682,7 +683,7 @@ def direction_b(ck, dev, judge):
     rng = random.Random(ck.seed)
     files = sorted(glob.glob("/repo/samples/**/*.pdf", recursive=True))
     files = [f for f in files if "encryption" not in f and os.path.getsize(f) < 3_000_000]
-    pick = files if ck.tier == "thorough" else rng.sample(files, min(10, len(files)))
+    pick = files if ck.tier == "thorough" else rng.sample(files, min(8, len(files)))
     maxpages = 2 if ck.tier == "quick" else 4
     traces = []
     skipped = 0
@@ -984,25 +985,21 @@ def markup_traces(ck, seen):
         return
     tf = os.path.join(ck.tmp, "c11_markup_traces.json")
     accepted = 0
-    for conv, devs in (("html", M.HTML_DEVS), ("hocr", M.HOCR_DEVS)):
-        todo = [t for t in traces if t["conv"] == conv]
-        if not todo:
-            continue
-        with open(tf, "w") as f:
-            json.dump(todo, f)
-        cfg = write_cfg(os.path.join(ck.tmp, "c11_markup_trace_%s.cfg" % conv),
-                        constants={"MaxNodes": 1, "Strings": "{}", "Kinds": "{}", "DevChoices": "{}", "Convs": "{}", "Modes": "{}",
-                                   "ParseOutput": "FALSE", "Dev": tla_set(devs)},
-                        init="TraceInit", next="TraceNext", invariants=["TraceMatches", "WholeMatches"])
-        res = run_tlc(MARKUP_TRACE_SPEC, cfg, workers=4, env={"TRACE_FILE": tf}, timeout=1800, heap="8g")
-        ck.add_tlc(res, "trace validation of %d recorded %s runs" % (len(todo), conv))
-        if res.ok:
-            accepted += len(todo)
-        else:
-            st = res.error_trace[-1][1] if res.error_trace else {}
-            ext(ck, "%s:trace-rejected" % conv)
-            ext_note(ck, seen, "%s:trace-rejected" % conv, "recorded %s run is not a behaviour of MarkupConverters.tla (%s; trace %s, node %s)"
-                     % (conv, res.violated, st.get("hs"), st.get("i")))
+    with open(tf, "w") as f:
+        json.dump(traces, f)
+    cfg = write_cfg(os.path.join(ck.tmp, "c11_markup_trace.cfg"),
+                    constants={"MaxNodes": 1, "Strings": "{}", "Kinds": "{}", "DevChoices": "{}", "Convs": "{}", "Modes": "{}",
+                               "ParseOutput": "FALSE", "Dev": tla_set(M.MARKUP_DEVS)},
+                    init="TraceInit", next="TraceNext", invariants=["TraceMatches", "WholeMatches"])
+    res = run_tlc(MARKUP_TRACE_SPEC, cfg, workers=4, env={"TRACE_FILE": tf}, timeout=1800, heap="8g")
+    ck.add_tlc(res, "trace validation of %d recorded html / hocr runs" % len(traces))
+    if res.ok:
+        accepted = len(traces)
+    else:
+        st = res.error_trace[-1][1] if res.error_trace else {}
+        ext(ck, "markup:trace-rejected")
+        ext_note(ck, seen, "markup:trace-rejected", "a recorded html / hocr run is not a behaviour of MarkupConverters.tla (%s; trace %s, node %s)"
+                 % (res.violated, st.get("hs"), st.get("i")))
     ck.traces += accepted
     ck.extra["markup_traces"] = len(traces)
     # vacuity: a corrupted recording must be rejected
@@ -1010,11 +1007,6 @@ def markup_traces(ck, seen):
     bad[0]["out"][len(bad[0]["out"]) // 2] = 1000 + 0x2603
     with open(tf, "w") as f:
         json.dump(bad, f)
-    devs = M.HTML_DEVS if bad[0]["conv"] == "html" else M.HOCR_DEVS
-    cfg = write_cfg(os.path.join(ck.tmp, "c11_markup_trace_bad.cfg"),
-                    constants={"MaxNodes": 1, "Strings": "{}", "Kinds": "{}", "DevChoices": "{}", "Convs": "{}", "Modes": "{}",
-                               "ParseOutput": "FALSE", "Dev": tla_set(devs)},
-                    init="TraceInit", next="TraceNext", invariants=["TraceMatches", "WholeMatches"])
     res = run_tlc(MARKUP_TRACE_SPEC, cfg, workers=1, env={"TRACE_FILE": tf}, timeout=600)
     if res.ok:
         raise MachineryError("vacuous markup trace validation: a corrupted recording was accepted")
@@ -1049,7 +1041,7 @@ def direction_tag(ck, seen):
     if n != res.emitted or n == 0:
         raise MachineryError("emitted %d terminal states but read %d" % (res.emitted, n))
     rng = random.Random(ck.seed)
-    limit = 1500 if ck.tier == "quick" else 20000
+    limit = 800 if ck.tier == "quick" else 20000
     if len(progs) > limit:
         progs = rng.sample(progs, limit)
     con = M.TagConcrete(0)
